@@ -17,9 +17,24 @@ MAP = {
     "revert-D12": ["C12"],
     "g4-c19d": ["C19"], "g4-c19e": ["C19"], "g4-c20a": ["C20"], "g4-c20b": ["C20"], "g4-c20c": ["C20"], "g4-c20d": ["C20"],
 }
+MAP2 = {
+    "g1-c01-shared-child-lookup": ["C01"], "g1-c02-concurrence-subclass-hook": ["C02"], "g1-c02-copy-fallback-typeerror": ["C02"],
+    "g1-c02-leaf-payload-shared": ["C02"], "g1-c02-shared-container-split": ["C02"], "g1-c03-c04-c05-voices-replaced-by-copies": ["C03", "C04", "C05"],
+    "g2-constant-tempo-object": ["C07"], "g2-converter-option-false": ["C07"], "g2-empty-flex-read-writes": ["C10"], "g2-long-envelope": ["C08"],
+    "g2-shared-container": ["C02", "C06"], "g2-side-attribute-lost": ["C06"],
+    "g3-c12-new-voice-loses-tempo-masked-by-F9": ["C12"], "g3-c12-padded-voice-tempo-seam": ["C12"], "g3-c13-converter-reuse-stale-tempo": ["C13"],
+    "g3-c13-zero-length-keeps-tempo": ["C13"], "g3-c14-neutral-fastpath-no-copy": ["C14"], "g3-c15-concurrence-subclass-hook": ["C15"],
+    "g4-c16-mutate-shared-value": ["C16"], "g4-c17-tempo-coarse-compare": ["C17"], "g4-c18-parse-existing-subclass": ["C18"],
+    "g4-c18-resolution-bound-at-import": ["C18"], "g4-c19-repetition-joins-trajectory": ["C19"], "g4-c19-tag-index-memo": ["C19"],
+    "g4-c20-closest-item-key": ["C20"], "g4-c20-dict-to-duration-names": ["C20"],
+}
+import sys
+ROUND = "audit2" if "--audit2" in sys.argv else "audit"
+if ROUND == "audit2":
+    MAP = MAP2
 rows = []
 for name, ids in sorted(MAP.items()):
-    d = f"/verif/seeded/audit/{name}"
+    d = f"/verif/seeded/{ROUND}/{name}"
     if not os.path.exists(d + "/patch.diff"):
         continue
     subprocess.run(["python3", "/verif/tools/try_harmless.py", d] + ids, stdout=subprocess.DEVNULL, stderr=subprocess.DEVNULL)
@@ -28,7 +43,7 @@ for name, ids in sorted(MAP.items()):
     what = next((r["checks"][i]["what"] for i in caught), "")
     rows.append((name, ",".join(ids), "suite: " + r["suite_tail"].split(" in ")[0], "caught by " + ",".join(caught) if caught else "NOT CAUGHT", what[:140]))
     print(rows[-1])
-with open("/verif/seeded/audit/RESULTS.md", "w") as f:
+with open(f"/verif/seeded/{ROUND}/RESULTS.md", "w") as f:
     f.write("| patch | checks run | the repository's own suite with the patch | result | first message |\n|---|---|---|---|---|\n")
     for r in rows:
         f.write("| " + " | ".join(x.replace("|", "/") for x in r) + " |\n")
